@@ -10,10 +10,14 @@ import (
 // C01 — the durable checkpoint never runs ahead of what the consumer settled.
 //
 // R1 (instant): every checkpoint written for (group, vb) names the writing session's resume position
-//     or the seqno of an event acknowledged / absorbed before the write request arrived at the store.
+//
+//	or the seqno of an event acknowledged / absorbed before the write request arrived at the store.
+//
 // R2 (after a crash): the restarted member requests every vBucket from a position before its first
-//     delivered-but-unacknowledged document event (cumulative acknowledgement semantics), and that
-//     event is delivered again.
+//
+//	delivered-but-unacknowledged document event (cumulative acknowledgement semantics), and that
+//	event is delivered again.
+//
 // R3: the restart's stream request equals the stored document field for field.
 func init() { checkers["C01"] = checkC01 }
 
@@ -39,7 +43,7 @@ func checkC01(run *Run, res *Result) {
 		}
 		return st[k]
 	}
-	reqN := map[int64]int{}         // request arrival number -> journal number of its arrival
+	reqN := map[int64]int{}             // request arrival number -> journal number of its arrival
 	storedDoc := map[int]*journal.Off{} // group-wide: vb -> last stored checkpoint
 	type pendingCrash struct {
 		firstUnsettled map[int]uint64 // vb -> seqno of the first delivered, unacknowledged document event
